@@ -225,6 +225,8 @@ def run(ctx):
     ctx.rule("BRZ-1", "every update of the equation system in the state-elimination function has the shape of Brzozowski's algebraic method "
                       "(b[n]=a[n,n]*b[n]; a[n,j]=a[n,n]*a[n,j]; b[i]=b[i]+a[i,n]b[n]; a[i,j]=a[i,j]+a[i,n]a[n,j]; n = reversed loop variable)")
     brz1(ctx, lib)
+    ctx.rule("BRZ-0", "the equation system is the automaton: rows numbered by a traversal from the initial state, b[i] = epsilon iff state_i final, a[i, position(target)] = edge label, result b[0]")
+    brz0(ctx, lib)
 
 
 # ----------------------------------------------------------------------------- necessary conditions inside union()
@@ -605,6 +607,124 @@ def brz1(ctx, lib):
         else:
             ctx.violation("BRZ-1", (F.path, why.replace("expected ", "")), "state-elimination update at this line does not have the shape of the algebraic method (%s); "
                           "found target %s, value %s" % (why, _t(tg, N), _t(r, N)), F.loc(ln))
+
+
+def brz0(ctx, lib):
+    """BRZ-0: the equation system handed to the elimination is the automaton: row i = i-th state of the traversal that starts at the initial state;
+    b[i] = epsilon exactly under is_final_state(state_i); a[i, j] receives the label of each outgoing edge of state_i with j = position of the edge's target
+    in the same state list (united with an entry already there); the result is b[0]."""
+    from sa import guards
+    fs = [b for b in lib.bodies if b.kind == "assoc_fn" and b.sig_output == EXPR and any(t.startswith("dfa::Dfa") for t in b.sig_inputs)]
+    if len(fs) != 1:
+        ctx.anchor_lost("BRZ-0", "Expression::from(Dfa, ..) (found %d)" % len(fs))
+        return
+    F = fs[0]
+    fi = guards.FnInfo.of(F)
+    d = fi.defs
+
+    def enum_item(o):
+        """(block of the Enumerate::next call, component) if o is a component of the enumerate item"""
+        o = local.peel(o)
+        comp = None
+        cur = o
+        while cur[0] in ("field", "deref", "ref", "downcast"):
+            if cur[0] == "field" and comp is None and cur[1] in (0, 1) and local.peel(cur[2])[0] == "field":
+                comp = cur[1]
+            cur = local.peel(cur[2] if cur[0] in ("field",) else cur[1] if cur[0] in ("deref", "ref") else cur[2])
+        if cur[0] == "call" and cur[1].endswith("Enumerate<I> as std::iter::Iterator>::next"):
+            return (cur[3], comp, cur)
+        return None
+
+    stores = []
+    for bi, t in F.calls():
+        n = callee_name(t) or ""
+        if "IndexMut<I> for ndarray::ArrayBase" not in n:
+            continue
+        idx = local.peel(d.operand(t["args"][1]))
+        dest = t["dest"]["l"]
+        rhs = None
+        for bj, blk in F.iter_blocks():
+            for s_ in blk["stmts"]:
+                if s_["k"] == "assign" and s_["place"]["l"] == dest and s_["place"]["proj"] and s_["place"]["proj"][0]["k"] == "deref":
+                    rhs = d.rvalue(s_["rv"])
+        stores.append((bi, t, idx, rhs))
+    nb = na = 0
+    states_term = None
+    for bi, t, idx, rhs in stores:
+        if idx[0] == "agg" and idx[1] == "tuple":
+            e = enum_item(idx[3][0])
+            if e is None or e[1] != 0:
+                continue
+            # ---- a[(i, j)]
+            na += 1
+            j = local.peel(idx[3][1])
+            pos = [x for x in local.walk(j) if x[0] == "call" and x[1].endswith("Iterator>::position")]
+            same_list = False
+            by_target = False
+            if pos:
+                lst = [x for x in local.walk(pos[0][2][0]) if x[0] == "call" and lib.body(x[1]) is not None]
+                enum_src = [x for x in local.walk(e[2]) if x[0] == "call" and lib.body(x[1]) is not None]
+                same_list = bool(lst) and bool(enum_src) and lst[0][1] == enum_src[0][1] and lst[0][3] == enum_src[0][3]
+                clo = local.peel(pos[0][2][1])
+                if clo[0] == "agg" and clo[1] == "closure" and lib.body(clo[2]) is not None:
+                    caps = " ".join(local.show(c_) for c_ in clo[3])
+                    by_target = "::target(" in caps or "target" in " ".join(c_["name"] for c_ in lib.body(clo[2]).captures)
+                    r = local.show(local.Defs(lib.body(clo[2])).local(0))
+                    by_target = by_target or "target" in r
+            label = any(x[0] == "call" and x[1].endswith("::weight") for x in local.walk(rhs)) if rhs is not None else False
+            if not pos or not same_list:
+                ctx.violation("BRZ-0", (F.path, "column index"), "the column of an edge's entry is not the position of the edge's target in the state list that numbers the rows", F.loc(t.get("line")))
+            elif not by_target:
+                ctx.violation("BRZ-0", (F.path, "column index"), "the column of an edge's entry is looked up by something other than the edge's target state", F.loc(t.get("line")))
+            elif not label:
+                ctx.violation("BRZ-0", (F.path, "edge entry"), "the entry stored for an edge is not built from the edge's label", F.loc(t.get("line")))
+            else:
+                ctx.ok("BRZ-0", F.path + ":a[i, position(target)] = label (united with an existing entry)", None, F.loc(t.get("line")))
+        else:
+            e = enum_item(idx)
+            if e is None or e[1] != 0:
+                continue
+            # ---- b[i]
+            nb += 1
+            eps = rhs is not None and any(local.const_value(x) in ("", b"") for x in local.walk(rhs)) and any(x[0] == "call" and x[1].endswith("new_literal") for x in local.walk(rhs))
+            fin = False
+            for g in guards.guards(F, bi):
+                o = local.peel(g["origin"])
+                if o[0] == "call" and lib.body(o[1]) is not None and lib.body(o[1]).sig_output == "bool" and guards.edge_truth(g) is True \
+                        and fi.cfg.edge_dominates(g["block"], g["succ"], bi):
+                    st = enum_item(o[2][1]) if len(o[2]) > 1 else None
+                    if st is not None and st[0] == e[0] and st[1] == 1:
+                        fin = True
+            if not eps:
+                ctx.violation("BRZ-0", (F.path, "final entry"), "b[i] of a final state is not the empty literal", F.loc(t.get("line")))
+            elif not fin:
+                ctx.violation("BRZ-0", (F.path, "final entry"), "b[i] = epsilon is not guarded by the finality of the i-th state itself", F.loc(t.get("line")))
+            else:
+                ctx.ok("BRZ-0", F.path + ":b[i] = epsilon iff state_i is final", None, F.loc(t.get("line")))
+    ctx.floor("BRZ-0", "initial entries of the equation system (final states, edges)", nb + na, 2)
+    # the result is b[0]
+    r = d.local(0)
+    idx0 = [x for x in local.walk(r) if x[0] == "call" and "Index<I> for ndarray::ArrayBase" in x[1]]
+    if idx0 and all(local.const_value(local.peel(x[2][1])) == 0 for x in idx0):
+        ctx.ok("BRZ-0", F.path + ":result = b[0]", None, F.loc())
+    else:
+        ctx.violation("BRZ-0", (F.path, "result"), "the returned expression is not entry 0 of the solved system (%s)" % local.show(r)[:100], F.loc())
+    # row 0 is the initial state: the traversal producing the state list starts there
+    order = [b for b in lib.bodies if b.kind == "assoc_fn" and b.sig_inputs == ["&dfa::Dfa"] and (b.sig_output or "").startswith("std::vec::Vec<petgraph")]
+    for ob in order:
+        do = local.Defs(ob)
+        starts = [t for _, t in ob.calls() if re.search(r"visit::(?:Dfs|Bfs|DfsPostOrder|Topo)::<[^>]*>::new$", callee_name(t) or "")]
+        if not starts:
+            ctx.undecided("BRZ-0", ob.path, "the state list is not produced by a petgraph traversal", ob.loc())
+            continue
+        st = local.peel(do.operand(starts[0]["args"][1]))
+        while st[0] in ("deref", "ref"):
+            st = local.peel(st[1])
+        if st[0] == "field" and st[3] == "dfa::Dfa" and "initial" in st[1] and (callee_name(starts[0]) or "").split("::<")[0].endswith("Dfs"):
+            ctx.ok("BRZ-0", ob.path + ":traversal starts at the initial state", None, ob.loc())
+        else:
+            ctx.violation("BRZ-0", (ob.path, "start of the traversal"), "the state list does not start with the automaton's initial state (%s via %s): b[0] would describe another state"
+                          % (local.show(st)[:40], callee_name(starts[0])), ob.loc())
 
 
 def _t(t, N):
